@@ -420,8 +420,10 @@ def extract_playback(job):
     """Re-run a failed job with concrete playback; returns list of (kind, description, [bytes...])."""
     td = os.path.join(WORK, "t", job.jid + "_pb")
     log = os.path.join(WORK, "logs", job.jid + ".playback.log")
+    # trace generation needs noticeably more memory than the verdict run (seen: every check "Status: ERROR" at the
+    # verdict run's limit), so the playback run gets twice the budget
     rc, wall, peak = run_cmd_limited(kani_cmd(job, td, playback=True), job.crate, log,
-                                     job.timeout * 3, job.mem_gb)
+                                     job.timeout * 3, max(job.mem_gb * 2, 28))
     shutil.rmtree(td, ignore_errors=True)
     text = open(log, errors="replace").read()
     out = []
